@@ -74,3 +74,33 @@ Proof.
   rewrite (hdiv_div_scale _ absdet orient Ho Ha). fold s.
   rewrite (Hdiv (qimage B c 2 x)). simpl. unfold qeval. ring.
 Qed.
+
+(* H(div), 3-D elements (ElementTetRT1, ElementHexRT1 on affine cells) *)
+Theorem hdiv_mapped_divergence3 e : In e all_elements -> e_dim e = 3%nat ->
+  forall v dv, In (BHdiv v dv) (e_basis e) ->
+  forall (A B : nat -> nat -> Q) (c x : nat -> Q) (absdet orient : Q),
+    orient * orient == 1 -> ~ absdet == 0 ->
+    B 0%nat 0%nat * A 0%nat 0%nat + B 0%nat 1%nat * A 1%nat 0%nat + B 0%nat 2%nat * A 2%nat 0%nat == 1 ->
+    B 0%nat 0%nat * A 0%nat 1%nat + B 0%nat 1%nat * A 1%nat 1%nat + B 0%nat 2%nat * A 2%nat 1%nat == 0 ->
+    B 0%nat 0%nat * A 0%nat 2%nat + B 0%nat 1%nat * A 1%nat 2%nat + B 0%nat 2%nat * A 2%nat 2%nat == 0 ->
+    B 1%nat 0%nat * A 0%nat 0%nat + B 1%nat 1%nat * A 1%nat 0%nat + B 1%nat 2%nat * A 2%nat 0%nat == 0 ->
+    B 1%nat 0%nat * A 0%nat 1%nat + B 1%nat 1%nat * A 1%nat 1%nat + B 1%nat 2%nat * A 2%nat 1%nat == 1 ->
+    B 1%nat 0%nat * A 0%nat 2%nat + B 1%nat 1%nat * A 1%nat 2%nat + B 1%nat 2%nat * A 2%nat 2%nat == 0 ->
+    B 2%nat 0%nat * A 0%nat 0%nat + B 2%nat 1%nat * A 1%nat 0%nat + B 2%nat 2%nat * A 2%nat 0%nat == 0 ->
+    B 2%nat 0%nat * A 0%nat 1%nat + B 2%nat 1%nat * A 1%nat 1%nat + B 2%nat 2%nat * A 2%nat 1%nat == 0 ->
+    B 2%nat 0%nat * A 0%nat 2%nat + B 2%nat 1%nat * A 1%nat 2%nat + B 2%nat 2%nat * A 2%nat 2%nat == 1 ->
+    let s := gen_hdiv_scale absdet orient in
+    let val := piola_value3 A s (aff_map B c 3) (nthp v 0) (nthp v 1) (nthp v 2) in
+    qeval (pderiv 0 (val 0%nat)) x + qeval (pderiv 1 (val 1%nat)) x + qeval (pderiv 2 (val 2%nat)) x
+    == gen_hdiv_div (qeval dv (qimage B c 3 x)) absdet orient.
+Proof.
+  intros He Hd v dv Hb A B c x absdet orient Ho Ha H11 H12 H13 H21 H22 H23 H31 H32 H33 s val. unfold val.
+  pose proof (q_deriv_ok_sound e (proj1 (Forall_forall _ _) all_deriv_ok e He) _ Hb) as [Hlen Hdiv].
+  rewrite Hd in Hlen, Hdiv.
+  assert (L : forall k, (k < 3)%nat -> mono_len_le 3 (nthp v k)).
+  { intros k Hk. rewrite <- Hd. apply (elem_poly_len e He _ Hb). simpl. right. unfold nthp. apply nth_In. lia. }
+  rewrite (hdiv_piola_div3 A B c s (nthp v 0) (nthp v 1) (nthp v 2) x (L 0%nat ltac:(lia)) (L 1%nat ltac:(lia)) (L 2%nat ltac:(lia))
+             H11 H12 H13 H21 H22 H23 H31 H32 H33).
+  rewrite (hdiv_div_scale _ absdet orient Ho Ha). fold s.
+  rewrite (Hdiv (qimage B c 3 x)). simpl. unfold qeval. ring.
+Qed.
